@@ -55,12 +55,12 @@ Lemma lin_length (a st : Q) (n : nat) : forall k, length (lin a st k n) = n.
 Proof. induction n as [|n IH]; intros k; simpl; [reflexivity | now rewrite IH]. Qed.
 
 Lemma lin_nth (a st d : Q) (n : nat) : forall k i, (i < n)%nat ->
-  nth i (lin a st k n) d = a + inject_Z (k + Z.of_nat i) * st.
+  nth i (lin a st k n) d = Qred (a + inject_Z (k + Z.of_nat i) * st).
 Proof.
   induction n as [|n IH]; intros k i Hi; [lia|].
   destruct i as [|i]; simpl nth.
   - now rewrite Z.add_0_r.
-  - rewrite IH by lia. do 3 f_equal. lia.
+  - rewrite IH by lia. do 4 f_equal. lia.
 Qed.
 
 Lemma linspace_length (a b : Q) (n : Z) : (0 <= n)%Z -> length (linspace a b n) = Z.to_nat n.
@@ -93,7 +93,7 @@ Proof.
   destruct (axis_off_bounds l r s Hs) as [_ [_ Hspan]].
   unfold linspace. destruct (axis_n l r s =? 1)%Z eqn:E1.
   - apply Z.eqb_eq in E1. rewrite E1 in Hi. assert (i = 0)%nat by lia. subst i. simpl. ring.
-  - apply Z.eqb_neq in E1. rewrite lin_nth by exact Hi. rewrite Z.add_0_l.
+  - apply Z.eqb_neq in E1. rewrite lin_nth by exact Hi. rewrite Z.add_0_l, !Qred_correct.
     set (o := axis_off l r s) in *. set (m := inject_Z (axis_n l r s - 1)) in *.
     assert (Hm : ~ m == 0).
     { unfold m. intros H0. assert (H1 : inject_Z 1 <= inject_Z (axis_n l r s - 1)) by (rewrite <- Zle_Qle; lia).
